@@ -15,7 +15,7 @@ ctl ready|start|run|stop|abort           → ok | ERR <PythonExceptionName>
 dump <i>                                 → absent | file lines joined by the two characters \n
 region D12                               → in | out
 ```
-values: `N` `T` `F` `i<int>` `s<text>` `L<atom>,<atom>…`; entries `M<f>=<atom>,…` / `O<atom>`.
+values: `N` `T` `F` `i<int>` `s<text>` `L<atom>,<atom>…`; entries `M<f>=<atom>,…` / `O<value>`.
 Stamps are in units of 1/8 s and are printed as Python prints the float.
 -/
 namespace Ioflo.Drv.LogRules
@@ -50,7 +50,7 @@ def parseEntry (s : String) : Option Entry :=
   | 'M' :: rest =>
     let r := String.ofList rest
     if r.isEmpty then some (.map []) else ((splitC ',' r).mapM parseKV).map .map
-  | 'O' :: rest => (parseAtom (String.ofList rest)).map .other
+  | 'O' :: rest => (parseVal (String.ofList rest)).map .other
   | _ => none
 
 def parseRule : String → Option Rule
